@@ -68,6 +68,8 @@ pub enum PosKind {
     Opt,
     Many,
     Some,
+    /// `.fallback("DEF")`: an unsuitable or missing word is absence
+    Fallback,
 }
 #[derive(Clone, Copy, Debug, PartialEq, Eq, Hash, Serialize, Deserialize)]
 pub struct PosItem {
@@ -153,6 +155,7 @@ impl PosItem {
         match self.kind {
             PosKind::Req => p,
             PosKind::Opt => p.opt(),
+            PosKind::Fallback => p.fallback(Val::s(DEF_VALUE)),
             PosKind::Many => p.many(),
             PosKind::Some => p.some(),
         }
@@ -655,6 +658,13 @@ fn parse_level_inner(l: &Level, anc: &[&Level], evs: &[Ev], env: &Env) -> Out {
                             vals.push(Val::some(Val::S(w.next().unwrap().0)))
                         } else {
                             vals.push(Val::No)
+                        }
+                    }
+                    PosKind::Fallback => {
+                        if suits(w.peek()) {
+                            vals.push(Val::S(w.next().unwrap().0))
+                        } else {
+                            vals.push(Val::s(DEF_VALUE))
                         }
                     }
                     PosKind::Many | PosKind::Some => {
